@@ -217,6 +217,12 @@ func c11Histories(req c11Req, o *ref.Oracle, resp *drv.Response, rng *rand.Rand)
 						ch.ObserveCap(nil)
 						ch.ObserveExtensionElements(nil)
 					}
+				case "extelements":
+					es := make([]gl.QuadraticExtensionVariable, len(op.Syms)/2)
+					for i := range es {
+						es[i] = gl.QuadraticExtensionVariable{v(op.Syms[2*i]), v(op.Syms[2*i+1])}
+					}
+					ch.ObserveExtensionElements(es)
 				case "hash":
 					ch.ObserveHash(poseidon.GoldilocksHashOut{v(op.Syms[0]), v(op.Syms[1]), v(op.Syms[2]), v(op.Syms[3])})
 				case "bnhash":
